@@ -129,6 +129,7 @@ def install_observers(g, obs, target_hi=None, target_lo=None):
             "other_serial": getattr(other, "_sx_serial", None),
             "self_obj": self,
             "site": sys._getframe(1).f_code.co_name,
+            "self_residues": list(getattr(self, "_sx_residues", [])),
             "other_token": getattr(other, "_sx_token", Ref(None)).obj,
         }
         res = MolGen._sx_orig_attach(self, self_bond_idx, other, other_bond_idx)
